@@ -81,6 +81,25 @@ func VH_C05_YearMonth() {
 		t := l.GetTime()
 		vAssert("hour-object-pillar", t.GetZhiIndex() == ((h+1)/2)%12 && t.GetGanIndex() == (2*(l.dayGanIndexExact%5)+t.GetZhiIndex())%10)
 	})
+	// the thirteen hour objects of the day (00:00, then every odd hour; the last one is the 23:00 early-rat slot)
+	vEach(func() {
+		ts := l.GetTimes()
+		ok := len(ts) == 13
+		for i := 0; ok && i < 13; i++ {
+			hh := 0
+			if i > 0 {
+				hh = 2*i - 1
+			}
+			late := 0
+			if hh == 23 {
+				late = 1
+			}
+			z := ((hh + 1) / 2) % 12
+			g := (2*((l.dayGanIndex+late)%10%5) + z) % 10
+			ok = ts[i] != nil && ts[i].GetZhiIndex() == z && ts[i].GetGanIndex() == g
+		}
+		vAssert("hour-objects-of-the-day", ok)
+	})
 	vEach(func() {
 		ec := l.GetEightChar()
 		ec.SetSect(1)
